@@ -17,6 +17,69 @@ COMMON_ASSUMPTIONS = [
 ]
 
 PROPS = {
+    "C01": {
+        "test": "TestC01", "variant": "elem",
+        "quick": {"shards": 16, "timeout": 1500,
+                  "matrix": [{"cpus": c} for c in (16, 1, 3, 16, 2, 5, 16, 1, 3, 7, 16, 4, 16, 3, 1, 16)]},
+        "thorough": {"shards": 32, "timeout": 7200, "matrix": [{"cpus": c} for c in range(1, 17)]},
+        "rule": "opening sets: n from {1,2,3,4,5,7,W-1,W,W+1,2W-1,2W,2W+1,3W+2 (W=NumCPU), 1..12, 30..60, 61..300}; index "
+                "pattern in {all equal, distinct with stride, two clusters, extremes, gaps, uniform}; up to 6 distinct "
+                "polynomials of kind zero/const/onehot/sparse/dense/max(r-1)/ramp; commitment representation plain / "
+                "rescaled / sign-flipped / both; shared commitment pointers; labels '', short, 900..2048 bytes; processes "
+                "pinned to 1..16 CPUs by taskset (runtime.NumCPU follows). Non-trivial = at least two distinct "
+                "evaluation indices; distinct by the full case.",
+        "oracle": "round trip: CheckMultiProof(fresh transcript, same label) == (true, nil); equal next challenge of both "
+                  "transcripts; commitments still the same group element (reference equality on raw coordinates)",
+        "assumptions": COMMON_ASSUMPTIONS + ["NumCPU > 16 cannot be produced in this sandbox"],
+    },
+    "C03": {
+        "test": "TestC03", "variant": "elem",
+        "quick": {"shards": 16, "timeout": 1800,
+                  "matrix": [{"cpus": c, "gomaxprocs": g} for (c, g) in
+                             ((16, None), (1, 1), (2, 4), (3, 16), (5, 1), (16, 1), (16, 4), (1, 16),
+                              (2, 1), (3, 4), (5, 16), (16, 16), (1, 4), (2, 16), (3, 1), (5, 4))]},
+        "thorough": {"shards": 64, "timeout": 10800, "parallel": 16,
+                     "matrix": [{"cpus": c, "gomaxprocs": g} for c in range(1, 17) for g in (1, 2, 4, 16)]},
+        "rule": "opening sets as C01 with n <= 40 (each proved twice: as generated after a drawn prefix of unrelated API "
+                "calls, then with every commitment re-represented) plus direct ipa.CreateIPAProof cases (polynomial kind x "
+                "point class {0,1,2,127,128,254,255,256,257,2^64-1,2^64,2^128,r-1..r-3,0..600,uniform} x representation); "
+                "process matrix NumCPU x GOMAXPROCS by taskset/env. Non-trivial = >= 2 distinct evaluation indices, or an IPA "
+                "proof at an out-of-domain point; distinct by the full case.",
+        "oracle": "differential: serialized proof bytes == bytes of the independent reference prover, and the next transcript "
+                  "challenge == the reference transcript's; the reference does not depend on CPU count, schedule, "
+                  "representation or history",
+        "assumptions": COMMON_ASSUMPTIONS + ["schedules are sampled (repetition, GOMAXPROCS, affinity), not controlled"],
+    },
+    "C02": {
+        "test": "TestC02", "variant": "elem",
+        "quick": {"shards": 16, "timeout": 1800},
+        "thorough": {"shards": 16, "timeout": 10800},
+        "rule": "per case: an honest opening set (n<=8) proved by the REFERENCE prover, then 5..9 transformations from a "
+                "catalogue (value-changing: offset/replace/negate/identity for C_i, z_i, y_i (incl. y->0), D, L_j, R_j, "
+                "final scalar, swaps L/R, L/L, R/R, swapped/dropped/duplicated openings, label change, D or IPA part "
+                "spliced from a second honest proof; representation-only: rescale/sign-flip of any element; shape: "
+                "len(ys)/len(zs) +-1, zero openings, len(L)/len(R) in {0,1,7,9,16}; arbitrary valid elements/scalars; the "
+                "all-zero pseudo-element in any position), and the same catalogue one level down for ipa.CheckIPAProof at "
+                "an in- or out-of-domain point. Every tuple is judged by both verifiers. Non-trivial = a transformed tuple "
+                "that the reference rejects (or classifies as wrong shape); distinct by (statement, transformation).",
+        "oracle": "independent reference verifier (explicit basis folding, defining formula for b): go-ipa must return the "
+                  "same boolean with err == nil for well-shaped input, (false, err != nil) for wrong shapes, never true for "
+                  "a tuple containing the all-zero pseudo-element, never panic",
+        "assumptions": COMMON_ASSUMPTIONS + ["functional agreement with the verification equation on generated tuples; "
+                                             "cryptographic soundness against an adaptive adversary is not testable"],
+    },
+    "C04": {
+        "test": "TestC04", "variant": "elem",
+        "quick": {"shards": 16, "timeout": 1500},
+        "thorough": {"shards": 16, "timeout": 7200},
+        "rule": "polynomial kind x evaluation point class {0,1,2,127,128,254,255,256,257,2^64-1,2^64,2^128,r-3..r-1,0..600,"
+                "uniform} x 3..6 claimed results {correct,+1,-1,0,-correct,neighbouring evaluations,2*correct,the point itself,"
+                "uniform}; points 254,255,256,257,0,r-1 are forced into every shard. Non-trivial = point outside the domain or "
+                "in 254..257 or at least one wrong result tested; distinct by the full case.",
+        "oracle": "p(point) by reference Lagrange evaluation in math/big (inside the domain asserted to be the evaluation "
+                  "itself); CheckIPAProof must return true iff result == p(point); the reference verifier must accept the proof",
+        "assumptions": COMMON_ASSUMPTIONS,
+    },
     "C16": {
         "test": "TestC16", "variant": "elem",
         "quick": {"shards": 16, "timeout": 900},
